@@ -39,6 +39,8 @@ NEEDS = {
  "C03c_shift_additive_precedence": "<< or >> next to a binary + or - without parentheses",
  "C04c_case_broken_alternative": "a case item whose earlier alternative is a pattern that does not compile and whose later alternative matches",
  "C09c_dot_script_fd_not_cloexec": "descriptors 3..9 all open when a script is sourced with `.`",
+ "C16c_readonly_local_in_function": "`readonly NAME[=VALUE]` executed inside a function, then the function returns and the name is looked up, assigned or unset",
+ "C20c_kill_attached_sig_prefix": "kill -s/-n with the signal attached to the option letter and carrying the SIG prefix (-sSIGINT)",
  "C19c_append_after_truncate": "an O_APPEND descriptor kept open, written, the file truncated through another open, then written again",
 }
 for d in sorted(glob.glob('/verif/seeded/*/')):
